@@ -36,8 +36,29 @@ pub fn install_observer() {
     rust_cc::verif_hooks::set_alloc_observer(observer);
 }
 
+thread_local! {
+    /// owners' map ids (100 + owner) that currently have a live map box
+    static LIVE_MAPS: RefCell<Vec<u32>> = const { RefCell::new(Vec::new()) };
+}
+
 fn observer(kind: u8, ptr: *mut u8, size: usize, align: usize) {
-    let oid = if kind == rust_cc::verif_hooks::KIND_BOX { CUR_NEW.try_with(|c| c.get()).unwrap_or(0) } else { CUR_META.try_with(|c| c.get()).unwrap_or(0) };
+    let mut oid = if kind == rust_cc::verif_hooks::KIND_BOX { CUR_NEW.try_with(|c| c.get()).unwrap_or(0) } else { CUR_META.try_with(|c| c.get()).unwrap_or(0) };
+    if kind == rust_cc::verif_hooks::KIND_BOX && oid > 100 && oid < 150 {
+        // Cleaner::register may allocate a second (empty, immediately dropped) map when a nested register on the
+        // same Cleaner created one meanwhile: it is a different allocation, tagged as the owner's spare map
+        let dup = LIVE_MAPS.try_with(|m| {
+            let mut m = m.borrow_mut();
+            if m.contains(&oid) {
+                true
+            } else {
+                m.push(oid);
+                false
+            }
+        }).unwrap_or(false);
+        if dup {
+            oid += 50;
+        }
+    }
     let e = alloc::register(kind, ptr, size, align, oid);
     let k = if kind == rust_cc::verif_hooks::KIND_BOX { "box" } else { "meta" };
     emit(json!({"e": "alloc", "k": k, "o": oid, "blk": e.blk, "size": e.size, "align": e.align}));
@@ -47,6 +68,9 @@ pub fn flush_frees() {
     let mut v = Vec::new();
     alloc::drain_frees(|f| v.push(f));
     for f in v {
+        if f.kind == rust_cc::verif_hooks::KIND_BOX && f.oid > 100 && f.oid < 150 {
+            let _ = LIVE_MAPS.try_with(|m| m.borrow_mut().retain(|x| *x != f.oid));
+        }
         push(json!({"e": "dealloc", "blk": f.blk, "size": f.size, "align": f.align, "live": f.was_live}));
     }
 }
